@@ -683,7 +683,7 @@ structure DrvState where
 
 def stepSeq (st : DrvState) (toks : List String) (impl : String) : DrvState × Verdict :=
   match toks with
-  | ["cfg", k, pv, ps] =>
+  | "cfg" :: k :: pv :: ps :: _ =>   -- a fifth token `sub<0|1>` (does the client subscribe to list_changed) is the harness's
     (match (tailN 2 ps).toNat? with
      | some size =>
        let cfg : SeqCfg := { newProto := k == "Ksl" && pv == "pvnew", pageSize := size }
